@@ -24,6 +24,9 @@ for h in H.HARNESSES:
     for ob in r.obligations: st[ob.status] = st.get(ob.status, 0) + 1
     print('%-70s paths=%d cut=%d obl=%d %s %.1fs' % (h.id, r.paths, r.cut_paths, len(r.obligations), st, r.seconds))
     if r.error: print('   ERROR', r.error)
+    for cname, cnt in r.covers.items():
+        if cnt == 0: print('    COVER NEVER REACHED', cname)
+    if '-c' in sys.argv: print('    covers:', {k.split('#', 1)[-1]: n for k, n in r.covers.items()})
     seen=set()
     for ob in r.obligations:
         if ob.status != 'discharged' and (ob.name, ob.status) not in seen:
